@@ -67,9 +67,16 @@ func (pg *PERIOGroup) newTicker(wg *sync.WaitGroup, evtCh chan Event) error {
 				logger.PerioLog.Debugf("ticker[%v] timeout", period)
 				// If the UPF had terminating, the evtCh would be nil
 				if evtCh != nil {
-					evtCh <- Event{
+					// the server may be waiting to stop this ticker while its
+					// event queue is full: never block on the queue alone
+					select {
+					case evtCh <- Event{
 						eType:  TYPE_PERIO_TIMEOUT,
 						period: period,
+					}:
+					case <-pg.stopCh:
+						logger.PerioLog.Infof("ticker[%v] Stopped", period)
+						return
 					}
 				}
 			case <-pg.stopCh:
@@ -84,7 +91,6 @@ func (pg *PERIOGroup) newTicker(wg *sync.WaitGroup, evtCh chan Event) error {
 
 func (pg *PERIOGroup) stopTicker() {
 	logger.PerioLog.Debugf("stopTicker: [%+v]", pg.period)
-	pg.stopCh <- struct{}{}
 	close(pg.stopCh)
 }
 
@@ -124,7 +130,6 @@ func (s *Server) Serve(wg *sync.WaitGroup) {
 	logger.PerioLog.Infof("perio server started")
 	defer func() {
 		logger.PerioLog.Infof("perio server stopped")
-		close(s.evtCh)
 		wg.Done()
 	}()
 
